@@ -11,7 +11,7 @@ const NAMES: [&str; 16] = [
     "[heap]", "[stack]", "[stack:123]", "[vdso]", "[vvar]", "[anon:scudo]", "/SYSV0000abcd (deleted)",
     "anon_inode:[io_uring]",
 ];
-const PERMS: [&str; 9] = ["r-xp", "r--p", "rw-p", "---p", "---p", "rwxp", "r--s", "rw-s", "--xp"];
+const PERMS: [&str; 11] = ["r-xp", "r--p", "rw-p", "---p", "---p", "rwxp", "r--s", "rw-s", "--xp", "---s", "-w-p"];
 
 pub struct GenLine {
     pub s: u64,
@@ -112,8 +112,10 @@ pub fn random_lines(r: &mut Rng, maxn: u64) -> Vec<GenLine> {
                 let size = 0x1000 * r.range(1, 3);
                 let broken = r.chance(1, 10);
                 let s = addr + if broken { 0x1000 } else { 0 };
+                // (sometimes the "gap" is an inaccessible shared reservation: not a gap of the linker's)
+                let perms: &'static str = if *is_gap && r.chance(1, 6) { "---s" } else { perms };
                 let (nm, o) = if *is_gap { (if r.chance(1, 8) { name } else { "" }, if r.chance(1, 8) { 0x1000 } else { 0 }) } else { (name, off) };
-                lines.push(GenLine { s, e: s + size, perms, off: o, name: nm });
+                lines.push(GenLine { s, e: s + size, perms: perms, off: o, name: nm });
                 addr = s + size;
                 off += size;
             }
@@ -153,7 +155,8 @@ pub fn generate(seed: u64, tier: &str, out: &mut dyn std::io::Write) {
     }
     // small-scope exhaustive: all sequences of ≤ 3 (quick) / ≤ 4 (thorough) lines over a 10-line alphabet,
     // contiguous or separated by one page
-    let alpha: [(&str, &str, u64); 10] = [
+    let alpha: [(&str, &str, u64); 11] = [
+        ("", "---s", 0),      // an inaccessible *shared* line: no linker's reserved gap
         ("/lib/a.so", "r-xp", 0), ("/lib/a.so", "r--p", 0x1000), ("/lib/a.so", "rw-p", 0), ("", "---p", 0), ("", "rw-p", 0),
         ("/lib/b.so", "r-xp", 0), ("[vdso]", "r-xp", 0), ("", "---p", 0x2000), ("/lib/a.so (deleted)", "---p", 0), ("[heap]", "rw-p", 0),
     ];
